@@ -38,6 +38,10 @@ Import ListNotations.
 Open Scope string_scope.
 Open Scope N_scope.
 """
+CTX_PRE = """From Coq Require Import List Bool Arith.
+From NG Require Import Svc.Ctx Svc.CtxRun.
+Import ListNotations.
+"""
 PAR_PRE = """From Coq Require Import List ZArith Bool.
 From NG Require Import Svc.Params.
 Import ListNotations.
@@ -49,7 +53,7 @@ SIG_KWNONE = "llm-params-absent-model-kwarg-left-as-None"
 SIG_PARAMS_SERIAL = "llm-params-wrong-without-overlap"
 SIG_KEY = "history-cache-hit-for-different-messages"
 SIG_CACHE = "history-cache-shared-instance-differs-from-fresh"
-SIG_CTX = "contextvar-leaks-between-tasks"
+SIG_CTX = "request-context-leaks-between-requests"
 
 PARAM_NAMES = {"temperature": 0, "max_tokens": 1, "top_p": 2, "n": 3, "seed": 4}
 
@@ -86,6 +90,7 @@ def impl():
     from nemoguardrails.llm import params as P
     from nemoguardrails.rails.llm.utils import get_history_cache_key
     from nemoguardrails import context as CTX
+    from nemoguardrails.rails.llm.options import GenerationOptions
     from utils import FakeLLM
 
     TAG = contextvars.ContextVar("c15_tag", default=None)
@@ -126,9 +131,11 @@ def impl():
             k = h.ncall.get(tag, 0)
             h.ncall[tag] = k + 1
             snap = snapshot(self)
-            h.calls.append({"tag": tag, "prompt": prompt, "params": snap})
-            h.steps.append((tag, "call", None, snap))
             opts = CTX.generation_options_var.get()
+            seen_opts = json.loads(json.dumps(opts.dict(), default=str)) if opts is not None else None
+            h.calls.append({"tag": tag, "prompt": prompt, "params": snap,
+                            "ctx": {"options": seen_opts, "raw": json.loads(json.dumps(CTX.raw_llm_request.get(), default=str))}})
+            h.steps.append((tag, "call", None, snap))
             h.ctx.append((tag, opts.llm_params if opts is not None else None, CTX.raw_llm_request.get()))
             lat = h.lat.get((tag, k), 0)
             if lat:
@@ -160,7 +167,8 @@ def impl():
         P.LLMParams._c15_wrapped = True
 
     _NS.update(dict(asyncio=asyncio, LLMRails=LLMRails, RailsConfig=RailsConfig, P=P, TAG=TAG, Hooks=Hooks,
-                    FnLLM=FnLLM, FnLLMKw=FnLLMKw, snapshot=snapshot, key=get_history_cache_key, CTX=CTX))
+                    FnLLM=FnLLM, FnLLMKw=FnLLMKw, snapshot=snapshot, key=get_history_cache_key, CTX=CTX,
+                    GenerationOptions=GenerationOptions))
     return _NS
 
 
@@ -275,12 +283,23 @@ def canon_reply(m):
 # ---- running conversations on a real instance ----
 
 
-def run_schedule(config, convs, sched, probes=()):
+def norm_options(o):
+    """What generation_options_var must hold for a request made with options `o`."""
+    if o is None:
+        return None
+    return json.loads(json.dumps(impl()["GenerationOptions"](**o).dict(), default=str))
+
+
+def run_schedule(config, convs, sched, probes=(), opts=None, mode="tasks"):
     """Serve the turns of `convs` (list of list of turns; a turn = list of client messages) on ONE
     fresh LLMRails instance in the order `sched` (list of conversation indices).
+    opts[c] = generation options every request of conversation c is made with (None = none).
+    mode "tasks": every request in its own task/context (sync generate());
+    mode "coroutine": ONE coroutine awaits generate_async for all requests (a worker loop).
     Returns (records, probe_records, final_params)."""
     ns = impl()
     app, llm, h = mk_app(config)
+    opts = opts or [None] * len(convs)
     seen = {}
     orig_get = app._get_events_for_messages
 
@@ -302,26 +321,50 @@ def run_schedule(config, convs, sched, probes=()):
     hist = [[] for _ in convs]
     done = [0] * len(convs)
     recs = []
+    plan = []
     for c in sched:
-        if done[c] >= len(convs[c]):
-            continue
-        k = done[c]
-        done[c] += 1
+        if done[c] < len(convs[c]):
+            plan.append((c, done[c]))
+            done[c] += 1
+
+    def before(c, k):
         msgs = hist[c] + json.loads(json.dumps(convs[c][k]))
         ns["TAG"].set((c, k))
-        n0 = len(h.calls)
         seen.clear()
-        try:
-            reply = app.generate(messages=json.loads(json.dumps(msgs)))
-            err = None
-        except Exception as e:  # not predicted by the model: reported as a finding by the caller
-            reply, err = {"role": "error", "content": type(e).__name__ + ": " + str(e)[:200]}, repr(e)
+        return msgs, len(h.calls)
+
+    def after(c, k, msgs, n0, res, err):
+        if err is not None:
+            reply = {"role": "error", "content": err[:200]}
+        else:
+            reply = res if isinstance(res, dict) else res.response[0]
         hist[c] = msgs + [reply]
         recs.append({"c": c, "k": k, "req": seen.get("req", msgs), "events": seen.get("events", []),
                      "new": seen.get("new", []), "reply": reply, "err": err,
                      "prompts": [x["prompt"] for x in h.calls[n0:]],
                      "call_params": [x["params"] for x in h.calls[n0:]],
+                     "call_ctx": [x["ctx"] for x in h.calls[n0:]],
                      "after_params": ns["snapshot"](llm)})
+
+    if mode == "tasks":
+        for c, k in plan:
+            msgs, n0 = before(c, k)
+            try:
+                res, err = app.generate(messages=json.loads(json.dumps(msgs)), options=json.loads(json.dumps(opts[c]))), None
+            except Exception as e:  # not predicted by the model: reported as a finding by the caller
+                res, err = None, type(e).__name__ + ": " + str(e)
+            after(c, k, msgs, n0, res, err)
+    else:
+        async def worker():
+            for c, k in plan:
+                msgs, n0 = before(c, k)
+                try:
+                    res, err = await app.generate_async(messages=json.loads(json.dumps(msgs)), options=json.loads(json.dumps(opts[c]))), None
+                except Exception as e:
+                    res, err = None, type(e).__name__ + ": " + str(e)
+                after(c, k, msgs, n0, res, err)
+
+        ns["asyncio"].run(worker())
     precs = []
     app._get_events_for_messages = orig_get
     for pr in probes:
@@ -390,9 +433,32 @@ def rand_conv(rng, maxturns=3):
     return [rand_turn(rng) for _ in range(rng.randint(1, maxturns))]
 
 
-def isolated(config, conv):
-    recs, _, _ = run_schedule(config, [conv], [0] * len(conv))
+def isolated(config, conv, opt=None, mode="tasks"):
+    recs, _, _ = run_schedule(config, [conv], [0] * len(conv), opts=[opt], mode=mode)
     return recs
+
+
+OPTIONS = [
+    {"llm_params": {"temperature": 0.2}},
+    {"llm_params": {"temperature": 0.9, "max_tokens": 7}},
+    {"llm_params": {"max_tokens": 11}, "log": {"llm_calls": True}},
+    {"llm_params": {"temperature": 0.1}, "rails": {"output": False}},
+    {"log": {"activated_rails": True}},
+]
+
+
+def rand_serving(rng, n, first_plain=False):
+    """Per-conversation generation options (None = request made without options) and the way the
+    requests are served: one task per request, or all of them by one coroutine."""
+    opts = [None if rng.random() < 0.5 else rng.choice(OPTIONS) for _ in range(n)]
+    if first_plain:
+        opts[0] = None
+    if rng.random() < 0.5 and n >= 2:
+        i, j = rng.sample(range(n), 2)      # make sure option-carrying and option-less requests mix
+        opts[i], opts[j] = (None if first_plain and i == 0 else rng.choice(OPTIONS)), None
+        if first_plain and i == 0:
+            opts[j] = rng.choice(OPTIONS)
+    return opts, rng.choice(["tasks", "coroutine", "coroutine"])
 
 
 def key_of(ms):
@@ -437,7 +503,8 @@ def gen_sets(config, rng, n_random, n_adv):
         convs = [rand_conv(rng) for _ in range(n)]
         if rng.random() < 0.3:
             convs[-1] = json.loads(json.dumps(convs[0]))      # identical twins
-        sets.append({"config": config, "kind": "random", "convs": convs})
+        opts, mode = rand_serving(rng, n)
+        sets.append({"config": config, "kind": "random", "convs": convs, "opts": opts, "mode": mode})
     for _ in range(n_adv):
         base = rand_conv(rng)
         if config != "general" and rng.random() < 0.5:
@@ -451,7 +518,8 @@ def gen_sets(config, rng, n_random, n_adv):
             extra = [rand_conv(rng, 2)] if rng.random() < 0.3 else []
             # the adversary may also continue for a turn
             conv = conv + ([[u("then")]] if rng.random() < 0.4 else [])
-            sets.append({"config": config, "kind": kind, "convs": [base, conv] + extra})
+            opts, mode = rand_serving(rng, 2 + len(extra), first_plain=True)
+            sets.append({"config": config, "kind": kind, "convs": [base, conv] + extra, "opts": opts, "mode": mode})
     return sets
 
 
@@ -489,7 +557,8 @@ def prep_set(args):
     """Isolated replays of every conversation of the set, probe requests, schedules."""
     s, cap, seed = args
     rng = random.Random(seed)
-    iso = [isolated(s["config"], c) for c in s["convs"]]
+    opts = s.get("opts") or [None] * len(s["convs"])
+    iso = [isolated(s["config"], c, o, s.get("mode", "tasks")) for c, o in zip(s["convs"], opts)]
     scheds, total = interleavings([len(c) for c in s["convs"]], cap, rng)
     if s.get("sched"):
         scheds = [tuple(s["sched"])] + ([] if s.get("only_sched") else [x for x in scheds if list(x) != list(s["sched"])])
@@ -505,11 +574,29 @@ def work_set(args):
     res = {"terms": [], "meta": [], "findings": [], "n_sched": len(scheds),
            "turns": 0, "honest": all(honest_conv(c) for c in convs), "kind": s["kind"], "probe_n": 0,
            "skipped_same_history": 0, "hits_cross": 0}
-    configured = None
+    configured = {"attrs": {"temperature": 0.5, "max_tokens": 100}, "kwargs": None}
+    opts = s.get("opts") or [None] * len(convs)
+    mode = s.get("mode", "tasks")
+    own = [norm_options(o) for o in opts]
+    res["ctx_terms"] = []
+    res["ctx_meta"] = []
     for sched in scheds:
-        recs, precs, final = run_schedule(config, convs, list(sched), probes)
-        if configured is None:
-            configured = {"attrs": {"temperature": 0.5, "max_tokens": 100}, "kwargs": None}
+        recs, precs, final = run_schedule(config, convs, list(sched), probes, opts=opts, mode=mode)
+        # the request context as a trace of Svc.Ctx: contexts, own options, options seen at the LLM calls
+        codes = {}
+
+        def code(o):
+            return "None" if o is None else "(Some %d)" % codes.setdefault(json.dumps(o, sort_keys=True), len(codes))
+
+        clog = ["LFork 0 1"] if mode == "coroutine" else []
+        for i, r in enumerate(recs):
+            k = 1 if mode == "coroutine" else i + 1
+            if mode != "coroutine":
+                clog.append("LFork 0 %d" % k)
+            for cx in r["call_ctx"]:
+                clog.append("LReq %d %s %s" % (k, code(own[r["c"]]), code(cx["options"])))
+        res["ctx_terms"].append(C.coq_list(["(" + x + ")" for x in clog]))
+        res["ctx_meta"].append({"set": s, "sched": list(sched)})
         _INTERN.clear()
         try:
             ops = ["Serve {} {} {} {}".format(coq_msgs(r["req"]), coq_toks(r["events"]), coq_smsg(r["reply"]), coq_toks(r["new"]))
@@ -525,7 +612,8 @@ def work_set(args):
         # ---- direct oracle: shared vs alone ----
         for r in recs:
             ir = iso[r["c"]][r["k"]]
-            payload = {"kind": "cache", "config": config, "convs": convs, "sched": list(sched), "conversation": r["c"], "turn": r["k"]}
+            payload = {"kind": "cache", "config": config, "convs": convs, "opts": opts, "mode": mode, "sched": list(sched),
+                       "conversation": r["c"], "turn": r["k"]}
             if r["err"]:
                 res["findings"].append(("generate-raises", "generate raised " + r["err"], payload))
                 continue
@@ -550,17 +638,32 @@ def work_set(args):
                 diffs.append("llm-parameters-at-call")
             if honest_conv(convs[r["c"]]) and r["events"] != ir["events"]:
                 diffs.append("events")
+            if r["call_ctx"] != ir["call_ctx"]:
+                diffs.append("request-context-at-call")
             if diffs:
-                res["findings"].append((SIG_CACHE, "conversation %d turn %d on the shared instance differs from the fresh-instance replay in: %s" % (r["c"], r["k"], ",".join(diffs)),
-                                        dict(payload, shared={"reply": canon_reply(r["reply"]), "prompts": r["prompts"], "events": r["events"]},
-                                             alone={"reply": canon_reply(ir["reply"]), "prompts": ir["prompts"], "events": ir["events"]})))
+                only_ctx = set(diffs) <= {"llm-parameters-at-call", "request-context-at-call"}
+                res["findings"].append((SIG_CTX if only_ctx else SIG_CACHE,
+                                        "conversation %d turn %d on the shared instance (%s) differs from the fresh-instance replay in: %s"
+                                        % (r["c"], r["k"], "one coroutine serves all requests" if mode == "coroutine" else "one task per request", ",".join(diffs)),
+                                        dict(payload, shared={"reply": canon_reply(r["reply"]), "prompts": r["prompts"], "events": r["events"],
+                                                              "call_params": r["call_params"], "options_seen": [c["options"] for c in r["call_ctx"]]},
+                                             alone={"reply": canon_reply(ir["reply"]), "prompts": ir["prompts"], "events": ir["events"],
+                                                    "call_params": ir["call_params"], "options_seen": [c["options"] for c in ir["call_ctx"]]})))
             if r["after_params"] != configured:
                 res["findings"].append((SIG_PARAMS_SERIAL, "LLM parameters after a sequential request are %s, configured %s" % (r["after_params"], configured),
                                         dict(payload, after=r["after_params"])))
-            for cp, prm in zip(r["call_params"], r["prompts"]):
-                want = {"temperature": 0.001, "max_tokens": 3} if prm.startswith("Check:") else {"temperature": 0.5, "max_tokens": 100}
+            lp = (opts[r["c"]] or {}).get("llm_params") or {}
+            for cp, prm, cx in zip(r["call_params"], r["prompts"], r["call_ctx"]):
+                if prm.startswith("Check:"):
+                    want = {"temperature": 0.001, "max_tokens": 3}
+                else:
+                    want = dict(configured["attrs"], **{k: v for k, v in lp.items() if k in configured["attrs"]})
                 if cp["attrs"] != want:
-                    res["findings"].append((SIG_PARAMS_SERIAL, "sequential LLM call ran with %s, its own parameters are %s" % (cp["attrs"], want), dict(payload, call=cp)))
+                    res["findings"].append((SIG_CTX if cx["options"] != own[r["c"]] else SIG_PARAMS_SERIAL,
+                                            "sequential LLM call ran with %s, its own parameters are %s" % (cp["attrs"], want), dict(payload, call=cp)))
+                if cx["options"] != own[r["c"]]:
+                    res["findings"].append((SIG_CTX, "the LLM call of a request made with options %s saw the generation options %s" % (opts[r["c"]], cx["options"]),
+                                            dict(payload, options_seen=cx["options"])))
         # probes: a lookup whose prefixes were never served must be the plain conversion
         served_now = set()
         for r in recs:
@@ -873,7 +976,7 @@ def run(tier, seed, replay=None):
     for br in b["broken"]:
         out.add_broken(br, b["log"])
     with C.BuildLock():
-        okm, logm = C.coq_make(["theories/Svc/HistRun.vo", "theories/Svc/Params.vo"])
+        okm, logm = C.coq_make(["theories/Svc/HistRun.vo", "theories/Svc/Params.vo", "theories/Svc/CtxRun.vo"])
     if not okm:
         out.add_broken("coq:theories/Svc/HistRun.v|Params.v", logm)
     thorough = tier == "thorough"
@@ -898,6 +1001,7 @@ def run(tier, seed, replay=None):
     for r in replays_and_corpus:
         if r.get("kind") == "cache":
             sets.append({"config": r["config"], "kind": "corpus", "convs": r["convs"], "sched": r.get("sched"),
+                         "opts": r.get("opts"), "mode": r.get("mode", "tasks"),
                          "only_sched": bool(replay) and bool(r.get("sched"))})
         elif r.get("kind") == "concurrent":
             conc_jobs.append((r["config"], r["model_kwargs"], [(m, lp) for m, lp in r["requests"]],
@@ -952,20 +1056,28 @@ def run(tier, seed, replay=None):
     results = []
     for si, s in enumerate(sets):
         mine = [c for c, o in zip(chunks, owner) if o == si]
-        r = {"terms": [], "meta": [], "findings": [], "n_sched": 0, "turns": 0, "probe_n": 0, "skipped_same_history": 0,
+        r = {"terms": [], "meta": [], "findings": [], "ctx_terms": [], "ctx_meta": [], "n_sched": 0, "turns": 0, "probe_n": 0, "skipped_same_history": 0,
              "hits_cross": 0, "honest": all(honest_conv(c) for c in s["convs"]), "kind": s["kind"]}
         for c in mine:
-            for k in ("terms", "meta", "findings"):
+            for k in ("terms", "meta", "findings", "ctx_terms", "ctx_meta"):
                 r[k] += c[k]
             for k in ("n_sched", "turns", "probe_n", "skipped_same_history", "hits_cross"):
                 r[k] += c[k]
         results.append(r)
     terms, metas = [], []
+    ctx_terms, ctx_metas = [], []
     kinds = {}
+    serving = {"one-task-per-request": 0, "one-coroutine": 0, "sets_mixing_options_and_none": 0}
     n_turns = n_probe = n_sched = n_honest = skipped = 0
     for s, r in zip(sets, results):
         terms += r["terms"]
         metas += r["meta"]
+        ctx_terms += r["ctx_terms"]
+        ctx_metas += r["ctx_meta"]
+        serving["one-coroutine" if s.get("mode") == "coroutine" else "one-task-per-request"] += r["n_sched"]
+        so = s.get("opts") or []
+        if any(o is None for o in so) and any(o is not None for o in so):
+            serving["sets_mixing_options_and_none"] += 1
         kinds[r["kind"]] = kinds.get(r["kind"], 0) + 1
         n_turns += r["turns"]
         n_probe += r["probe_n"]
@@ -987,6 +1099,16 @@ def run(tier, seed, replay=None):
                 out.add_broken("correspondence:C15-cache",
                                f"{len(bad)} traces of the real LLMRails are not traces of Svc.HistCache (lookup as translated from the source); smallest: set={json.dumps(m['set'])[:1500]} sched={m['sched']} first disagreeing operation / model events: {model[-1500:]}")
 
+    if okm and ctx_terms:
+        bools, err = C.run_cases(PID + "_ctx", CTX_PRE, ctx_terms, "check_ctx", shard=400)
+        if err:
+            out.add_broken("correspondence:C15-request-context(coqc)", err)
+        else:
+            bad = [(t, m) for ok, t, m in zip(bools, ctx_terms, ctx_metas) if not ok]
+            if bad:
+                t, m = min(bad, key=lambda c: len(c[0]))
+                out.add_broken("correspondence:C15-request-context",
+                               f"{len(bad)} runs: the generation options seen at the LLM calls are not the ones Svc.Ctx predicts (entry code as translated from the source); smallest: convs={json.dumps(m['set']['convs'])[:600]} opts={m['set'].get('opts')} mode={m['set'].get('mode')} sched={m['sched']} trace={t[:600]}")
     _t(out, 'cache traces checked in Coq')
     # ---- (3) LLMParams pure differential
     par_terms, par_kept = [], []
@@ -1045,16 +1167,16 @@ def run(tier, seed, replay=None):
 
     _t(out, 'concurrent traces checked in Coq')
     out.coverage.update({
-        "evaluations": len(key_terms) + len(terms) + len(par_terms) + len(conc_terms),
+        "evaluations": len(key_terms) + len(terms) + len(ctx_terms) + len(par_terms) + len(conc_terms),
         "distinct_nontrivial": distinct + sum(1 for c in par_kept if c["overlapped"]) + conc_stats["overlapping"],
         "rule": "cache: one case = one sequential interleaving of the turns of a conversation set served on ONE real LLMRails instance (request, events returned by _get_events_for_messages, reply, new events, then probe lookups), distinct by hash of the Coq term; every such case has >=2 conversations, so all are non-trivial; params: non-trivial = manager windows overlap; concurrent: non-trivial = the logged windows of different tasks overlap",
         "samples": [{"set_kind": m["set"]["kind"], "config": m["set"]["config"], "convs": m["set"]["convs"], "sched": m["sched"]} for m in metas[:2]]
                    + ([{"key_case": key_kept[0][0], "key": key_kept[0][1]}] if key_kept else []),
         "input_distribution": {"conversation_sets": len(sets), "set_kinds": kinds, "honest_sets": n_honest,
-                               "interleavings_run": n_sched, "turns_served": n_turns, "probe_lookups": n_probe,
+                               "interleavings_run": n_sched, "serving": serving, "turns_served": n_turns, "probe_lookups": n_probe,
                                "turns_not_compared_same_history": skipped, "key_cases": len(key_terms),
                                "params_cases": par_stats, "concurrent": conc_stats, "corpus_cases": n_corpus},
-        "traces_validated_against_impl": len(terms) + len(par_terms) + len(conc_terms),
+        "traces_validated_against_impl": len(terms) + len(ctx_terms) + len(par_terms) + len(conc_terms),
     })
     out.assumptions += [
         "generation (runtime.generate_events, the LLM, actions) is an arbitrary deterministic function G of the event list; uuids/timestamps abstracted; the fake LLM answers as a function of the prompt",
